@@ -51,9 +51,37 @@ claimed = {
     text="RectClipLinesPaths64 executed on every feasible path for a symbolic rectangle against symbolic axis-parallel polylines (2-point segments, L shapes, collinear triples): vertices inside the rectangle and on the line, pieces not closed up, and a symbolic point of the input line more than 2 units from the rectangle boundary is covered iff it is inside the rectangle (two-point crossing segments included).",
     note="Sloped segments and polylines of more than 3 points outside these jobs.",
     ref="3/C11"),
+ "C04": dict(
+    text="BooleanOpPolyTree64 and the flat BooleanOpPaths64 run in one symbolic execution on R(2,0), R(1,1), three strictly nested rectangles, crossing bars (plus-shaped hole) and subject minus full-height strip plus hole (result split by horizontal joins), all sides symbolic: tree polygons are exactly the flat result (bijection), every node lies inside its parent and inside no sibling (per grid cell), IsHole() iff negatively oriented, levels alternate, a hole's parent is the innermost containing boundary.",
+    note="Rectilinear families with at most three rectangles, three-rectangle ones restricted as stated in the job bounds; the floating-point tree variant is not decided here.",
+    ref="3/C04"),
+ "C07": dict(
+    text="Plumbing equivalence decided on the real code: BooleanOpPathsD and MinkowskiSumD/DiffD and their 64-bit counterparts on the quantised input run in one symbolic execution over symbolic real inputs and the outputs are compared term for term (identical float operation keys); RectClipPathsD/LinesPathsD likewise in the thorough tier; the documented precision-range panic is decided for all nine D entry points at precisions 9, -9, 8, -8, 2.",
+    note="govalues/decimal is stubbed by its contract on symbolic values (nearest integer as an uninterpreted function with |q-v|<=1/2); its own numerics are outside the claim. PolyTreeD/InflatePathsD/SimplifyPathD only through the precision jobs. Known findings: ScaleRectD truncation, precision 0 means default 2.",
+    ref="3/C07"),
+ "C08": dict(
+    text="minkowskiInternal and the real Union executed on every feasible path for a symbolic rectangle pattern and symbolic axis-parallel paths (segments, L shapes, collinear triples; closed rectangle in the thorough tier), sum and difference: the result's region at a fully symbolic probe equals the closed-form swept region (segment (+) pattern boundary = rectangle minus hole), the result is canonical, the inputs are not written.",
+    note="Rectangular patterns and axis-parallel paths only; coordinates in [-2^27,2^27] so sums stay in the domain.",
+    ref="3/C08"),
+ "C09": dict(
+    text="The open-path branches of the sweep executed on every feasible path for symbolic axis-parallel open polylines against a symbolic clip rectangle (and optionally a symbolic closed subject rectangle): the closed solution is vertex-for-vertex the one computed without the open path, open output vertices lie on the subject line, and a symbolic point of the subject line more than 2 units from every closed edge is covered iff the clip type's inside/outside condition holds under the exact winding number.",
+    note="One clip rectangle, axis-parallel polylines of up to 3 points; the closed subject is restricted to a staggered overlap with the clip.",
+    ref="3/C09"),
+ "C13": dict(
+    text="Translation: the boolean operation on fully symbolic R(1,1) and on its translate by a symbolic vector of magnitude up to 2^52 - 2^29 run in one symbolic execution; the translated run must return the translated solution vertex for vertex on every feasible path. Scaling: the cross-product kernel's sign is proved at 2^29 and refuted at the advertised 2^61 by a solver witness replayed natively (known finding).",
+    note="Region-level scaling to 2^61 for whole operations is not decided; translation is claimed for the boolean operations on R(1,1) only.",
+    ref="3/C13"),
+ "C18": dict(
+    cat="other",
+    text="Schedules are not made symbolic. Decided instead, for every feasible path of eight representative harnesses covering the engine, tree building, rectangle clipping, open paths, Minkowski and the path utilities (all symbolic inputs within their bounds): after package initialisation no Store goes through an address rooted in a package-level variable and none into a backing array reachable from a caller-supplied argument (executor heap monitor on every Store instruction); goroutine/channel/select instructions abort the path. This is the sufficient condition for calls on distinct objects to commute.",
+    note="A sufficient condition, not an exploration of interleavings; stubbed library calls are assumed to keep no unsynchronised shared state. offset.go is not covered.",
+    tech="SSA symbolic execution with a heap-write monitor over all feasible paths (solver decides feasibility); independence argument",
+    ref="3/C18"),
 }
 
 not_applicable = {
+ "C05": "offsetting takes sqrt/acos/atan2/sin/cos of values derived from symbolic geometry; no installed solver has a usable theory for them and the concrete-normals fallback (symbolic translation of concrete polygons) produced rounding atoms per vertex that z3 did not decide within the available time; see DESIGN.md section 5",
+ "C10": "same code path as C05 (offset.go: getUnitNormal, doRound/doSquare/doMiter): not encodable within reach; see DESIGN.md section 5",
 }
 
 ALL = ["C%02d" % i for i in range(1, 20)]
